@@ -14,6 +14,7 @@ from smartquery.custom_types import Decimal
 from smartquery.exceptions import ParserError
 
 
+NUMERIC_TYPES = (Decimal_, int, float)
 REGEX_TIMEOUT = 0.05
 MAX_ARRAY_SIZE = 10000
 CAST_DICT_KEYS_TO_STRINGS = True  # for JSON serialisation compatability
@@ -112,6 +113,14 @@ def _key_text(key: Any) -> str:
         return f'<{key.bit_length()}-bit integer>'
 
 
+def _mul(op1: Any, op2: Any) -> Decimal_:
+    if not isinstance(op1, NUMERIC_TYPES) or not isinstance(op2, NUMERIC_TYPES):
+        raise ParserError(f'Can\'t multiply non-numbers')
+
+    # explicitly cast to Decimal to avoid multiplying big integers and repeating strings and lists
+    return Decimal(op1) * Decimal(op2)
+
+
 def _get_item(container: Any, key: Any) -> Any:
     key = _key_cast(container, key)
 
@@ -157,7 +166,7 @@ def _set_with_op(container: Any, key: Any, op: str, value: Any) -> Any:
     elif op == '-=':
         container[key] -= value
     elif op == '*=':
-        container[key] *= value
+        container[key] = _mul(container[key], value)
     elif op == '/=':
         container[key] /= value
     else:
